@@ -1156,7 +1156,12 @@ class Interp:
         g = n.generators[0]
         key, spec = self._loop_key(n, env)
         if spec is not None:
-            if _norm(spec.header) != _norm(self.header_text(n, env)):
+            # the fingerprint of a comprehension is its `for <target> in <iterable>` part; the element expression is the
+            # loop *body* and is analysed against the invariant like the body of a for statement
+            def _forpart(t):
+                t = _norm(t)
+                return t[t.index(' for ') + 1:].rstrip(']') if ' for ' in t else t
+            if _forpart(spec.header) != _forpart(self.header_text(n, env)):
                 raise Unsupported('comprehension header changed: invariant not applied')
             n_term, item_of = self.models.symbolic_iter(self, it)
             body = [ast.Expr(value=n.elt)]
